@@ -40,7 +40,7 @@ namespace c17
     };
   };
 
-  struct SchedOpts { int max_cells = 16; bool threaded_bias = false; int wd_ms = 1200; };
+  struct SchedOpts { int max_cells = 16; bool threaded_bias = false; int wd_ms = 5000; };
 
   struct JobSpec { bool S = true, C = true; Sched sched; };
 
@@ -120,6 +120,7 @@ namespace c17
     c.label("cells:" + std::string(sub.cells.empty() ? "0" : sub.cells.size() == 1 ? "1" : sub.cells.size() <= 16 ? "2-16" : sub.cells.size() <= 256 ? "17-256" : "257+"));
     c.label("jobs:" + std::to_string(njobs));
     c.announce();   // compile() itself is code under test
+    verdict_fd() = c.fd;
 
     setup(); apply_subset(*da, *mesh, sub);
     std::size_t nw = da->get_num_worker_threads();
